@@ -212,6 +212,8 @@ def resolve_irr(ir, planting_dates, length):
                 offs = [(i, 6.0) for i in range(-3, length + 6)]
             elif sch == "outside":
                 offs = [(-3, 25.0), (length + 15, 25.0)]
+            elif sch == "empty":
+                offs = []
             else:
                 raise ValueError(sch)
             for o, dep in offs:
